@@ -49,6 +49,9 @@ type Params struct {
 	TimeoutMs    int       `json:"timeout_ms"`
 }
 
+// timedOut counts scenarios that hit their deadline in this run.
+var timedOut atomic.Int64
+
 type sink struct {
 	mu     sync.Mutex
 	expect []byte
@@ -123,7 +126,11 @@ func newScenario(p Params) *scenario {
 	sc.closedC = map[string]chan struct{}{"LC": make(chan struct{}), "DC": make(chan struct{})}
 	to := p.TimeoutMs
 	if to <= 0 {
-		to = 20000
+		to = 45000
+	}
+	// when tunnels hang wholesale (a broken tree), do not wait the full time for every one of them
+	if n := timedOut.Load(); n >= 12 && to > 5000 && p.HoldMs < 3000 {
+		to = 5000
 	}
 	sc.deadline = time.Now().Add(time.Duration(to) * time.Millisecond)
 	return sc
@@ -489,7 +496,7 @@ func (sc *scenario) waitClosed() {
 	for _, who := range []string{"DC", "LC"} {
 		select {
 		case <-sc.closedC[who]:
-		case <-time.After(3 * time.Second):
+		case <-time.After(10 * time.Second):
 		}
 	}
 }
